@@ -93,6 +93,10 @@ def gen_quals(rng, mode, n, qeq):
     if mode == 'lowtail':      # a '#' tail (phred 2) of 1..4 cycles at either end of the read
         k = min(n, rng.randint(1, 4))
         return [qeq] * (n - k) + [2] * k if rng.random() < 0.5 else [2] * k + [qeq] * (n - k)
+    if mode == 'mid':          # phred 4..9: a single real base still beats the no-call hypothesis
+        return [rng.randint(4, 9) for _ in range(n)]
+    if mode == 'hi':           # up to the largest printable phred, unequal values above 60
+        return [rng.choice([41, 60, 61, 62, 70, 92, 93]) for _ in range(n)]
     if mode == 'low':          # nothing above phred 3: every position is undecidable for the caller -> N
         return [rng.randint(0, 3) for _ in range(n)]
     return [rng.choice([0, 0, 1]) if rng.random() < 0.1 else rng.randint(2, 41) for _ in range(n)]     # incl. quality 0 ('!')
@@ -110,18 +114,22 @@ def gen_mate(rng, ref, start, length, rev, qmode, qeq, err, gaps=True):
             seq.append(rng.choice('ACGTN' if rng.random() < 0.15 else 'ACGT'))
     mate['seq'] = seq
     mate['q'] = gen_quals(rng, qmode, length, qeq)
+    if qmode == 'mid':         # a no-call in this read where another read may show the real base at phred 4..9
+        mate['seq'] = ['N' if rng.random() < 0.2 else b for b in mate['seq']]
     return mate
 
 
-def gen_molecule(rng, ref, origin, chrom, same_start=False, max_frags=6, force_rev=None):
+def gen_molecule(rng, ref, origin, chrom, same_start=False, max_frags=6, force_rev=None, allow_unmapped=True):
     """One CHIC molecule: every fragment's first mate starts at (about) the same place; second mates land at varying
     distances, which produces covered blocks separated by gaps of many sizes."""
     rev = rng.random() < 0.4 if force_rev is None else force_rev
     n = rng.choice([1, 1, 1, 2, 2, 3, 3, 4, 5, 6][:max(1, min(10, max_frags * 2))])
     n = min(n, max_frags)
-    qmode = rng.choices(['equal', 'tri', 'any', 'lowtail', 'low'], [0.45, 0.28, 0.09, 0.12, 0.06])[0]
+    qmode = rng.choices(['equal', 'tri', 'any', 'lowtail', 'low', 'mid', 'hi'], [0.35, 0.21, 0.08, 0.10, 0.05, 0.12, 0.09])[0]
     qeq = rng.choice([10, 20, 30, 30, 37, 40, 3, 4, 9])     # 3 / 4: either side of the caller's N threshold
     err = rng.choice([0.0, 0.05, 0.15, 0.3])
+    if qmode == 'mid':
+        err = 0.0          # the only disagreement is an N call in one of the reads (see gen_mate)
     gaps = rng.random() < 0.5
     nomd = rng.random() < 0.1
     frags = []
@@ -144,7 +152,7 @@ def gen_molecule(rng, ref, origin, chrom, same_start=False, max_frags=6, force_r
         x = rng.random()
         if x < 0.25:
             f = {'form': 'r1none', 'r1': r1}
-        elif x < 0.30 and not same_start:
+        elif x < 0.30 and not same_start and allow_unmapped:
             f = {'form': 'r2unmapped', 'r1': r1}       # half-mapped pair: the unmapped mate covers nothing
         if nomd:
             for mt in (f.get('r1'), f.get('r2')):
@@ -192,7 +200,7 @@ def add_umi_errors(rng, mol, one_variant=False):
         mol['frags'][i]['umi'] = rng.choice(variants)
 
 
-def base_event(ref, mol, via, max_n, site, assoc=None, cap=None):
+def base_event(ref, mol, via, max_n, site, assoc=None, cap=None, frag_sites=None):
     """assoc: number of fragments the molecule accepted (the first `assoc` of the description; the others were refused
     because of max_associated_fragments=cap and only count as overflow). TF = associated + overflow as write_tags defines it
     for the source reads; af = associated."""
@@ -203,6 +211,9 @@ def base_event(ref, mol, via, max_n, site, assoc=None, cap=None):
             'mol': {'SM': mol['sample'], 'RX': mol['umi'], 'DS': int(site), 'TF': n, 'af': assoc},
             # UMIs of the fragments the molecule accepted: its UMI is the (strictly) most common one
             'umis': [frag_umi(mol, f) for f in mol['frags'][:assoc]], 'bc': mol['bc'],
+            # all fragments offered to the molecule: CHICMolecule._add_fragment moves the site before a fragment can be refused
+            # because of max_associated_fragments, and refused fragments still belong to the molecule (they count in TF)
+            'frag_sites': (frag_sites or [int(site)]),
             'cap': 0 if cap is None else int(cap),
             'reads': [{'start': m['start'], 'cigar': m['cigar'], 'seq': m['seq'], 'q': m['q']} for m in mapped_reads(inside)],
             'ref': ref_window(ref, mol), 'desc': {'frags': mol['frags'], 'bc': mol['bc']}}
@@ -224,6 +235,11 @@ class Env:
             reads = molgen.build_reads(self.hdr, self.ref, mol['chrom'], 'src%d' % i, f, tags=read_tags(mol, f))
             out.append(self.CHICFragment(reads, assignment_radius=100000, umi_hamming_distance=1))
         return out
+
+    def frag_sites(self, mol):
+        """The cut site of every fragment as the fragment class defines it (fragment-level correctness is C09's subject); the
+        molecule-level site is decided by the spec from these: smallest for a forward, largest for a reverse CHIC molecule."""
+        return [int(f.get_site_location()[1]) for f in self.fragments(mol)]
 
     def site_of(self, mol):
         """The molecule's site as the fragment class defines it for the first fragment (C09 is about its correctness)."""
@@ -327,7 +343,7 @@ def run_api(env, emit, items, tid0, tag):
             pre = label.endswith('_pre')
             sub = dict(mol, frags=mol['frags'][:n_added]) if pre else mol
             via = 'crd' if label.endswith('_crd') else ('api' if hist_k is None or pre else 'api_hist')
-            e = base_event(env.ref, sub, via, max_n, site, assoc, cap)
+            e = base_event(env.ref, sub, via, max_n, site, assoc, cap, env.frag_sites(sub))
             if len(item) > 5 and item[5] and not pre:
                 e['merge'] = True
             if hist_k is not None and not pre:
@@ -344,7 +360,7 @@ def run_api(env, emit, items, tid0, tag):
     return tid
 
 
-def run_cli(env, emit, mols, no_source, with_ref, tid0, tag, cap=None):
+def run_cli(env, emit, mols, no_source, with_ref, tid0, tag, cap=None, radius=None, via_label=None):
     inp = os.path.join(os.getcwd(), 'c15_cli_%s_%d.bam' % (tag, os.getpid()))
     outp = os.path.join(os.getcwd(), 'c15_cli_%s_%d.out.bam' % (tag, os.getpid()))
     reads, names = [], set()
@@ -361,6 +377,8 @@ def run_cli(env, emit, mols, no_source, with_ref, tid0, tag, cap=None):
     argv = [inp, '-method', 'chic', '--multiprocess', '-tagthreads', '2', '--consensus', '-o', outp]
     if with_ref:
         argv += ['-ref', env.fa]
+    if radius is not None:
+        argv += ['-assignment_radius', str(radius)]
     if no_source:
         argv.append('--no_source_reads')
     if cap is not None:
@@ -393,11 +411,12 @@ def run_cli(env, emit, mols, no_source, with_ref, tid0, tag, cap=None):
     for p in (inp, inp + '.bai', outp, outp + '.bai', outp.replace('.bam', '.status.txt')):
         if os.path.exists(p):
             os.remove(p)
-    via = 'cli_nosrc' if no_source else 'cli'
+    via = via_label or ('cli_nosrc' if no_source else 'cli')
     sites = [env.site_of(mol) for mol in mols]
     used = set()
     for i, mol in enumerate(mols):
-        e = base_event(env.ref, mol, via, None, sites[i], None if cap is None else min(cap, len(mol['frags'])), cap)
+        e = base_event(env.ref, mol, via, None, sites[i], None if cap is None else min(cap, len(mol['frags'])), cap, env.frag_sites(mol))
+        e['radius'] = 0 if radius is None else int(radius)
         e['tid'] = tid0 + i
         e['with_ref'] = bool(with_ref)
         if raised:
@@ -434,7 +453,8 @@ def main():
                 if e['via'] in ('api', 'api_hist', 'crd'):
                     run_api(env, emit, [(mol, None if e['maxN'] < 0 else e['maxN'], cap, e.get('hist_k'), e.get('wp'), e.get('merge', False))], 1, 'replay')
                 else:
-                    run_cli(env, emit, [mol], e['via'] == 'cli_nosrc', e.get('with_ref', True), 1, 'replay', cap)
+                    run_cli(env, emit, [mol], e['via'] == 'cli_nosrc', e.get('with_ref', True), 1, 'replay', cap, e.get('radius') or None,
+                            via_label=e['via'] if e['via'] == 'cli_halfmapped' else None)
                 return
             tid = 1
             n_api = 300 if tier == "quick" else 15000
@@ -461,11 +481,13 @@ def main():
             tid = run_api(env, emit, batch, tid, 'a')
             n_cli = 4 if tier == 'quick' else 60
             for k in range(n_cli):
+                # every fourth run: -assignment_radius 10 and fragments whose first mates (cut sites) differ by a few bases
+                radius = 10 if k % 4 == 0 else None
                 mols, site = [], {c: 1000 for c, _ in molgen.CONTIGS}
                 for _ in range(rng.randint(1, 6)):
                     chrom = rng.choice([c for c, _ in molgen.CONTIGS])
                     site[chrom] += rng.randint(3000, 9000)
-                    mols.append(gen_molecule(rng, env.ref, site[chrom], chrom, same_start=True, max_frags=4))
+                    mols.append(gen_molecule(rng, env.ref, site[chrom], chrom, same_start=(radius is None), max_frags=4, allow_unmapped=False))
                 if rng.random() < 0.5:
                     # a second cell with a molecule at exactly the same place and with the same UMI (equal keys but for the sample)
                     twin = json.loads(json.dumps(mols[0]))
@@ -493,9 +515,14 @@ def main():
                     cap = rng.randint(1, 2)
                     for m in mols:
                         m['frags'] = [json.loads(json.dumps(m['frags'][0])) for _ in range(rng.randint(cap + 1, cap + 3))]
-                tid, hung = run_cli(env, emit, mols, no_source=(k % 2 == 1), with_ref=True, tid0=tid, tag='c%d' % k, cap=cap)
+                tid, hung = run_cli(env, emit, mols, no_source=(k % 2 == 1), with_ref=True, tid0=tid, tag='c%d' % k, cap=cap, radius=radius)
                 if hung:        # every further run would only wait for the timeout again
                     break
+            # observation only (NOTE): a BAM that also holds a half-mapped pair (second mate unmapped, placed at its mate's position)
+            mols = [gen_molecule(rng, env.ref, 4000, 'chr1', same_start=True, max_frags=2, allow_unmapped=False),
+                    gen_molecule(rng, env.ref, 9000, 'chr1', same_start=True, max_frags=1, allow_unmapped=False)]
+            mols[1]['frags'][0] = {'form': 'r2unmapped', 'r1': mols[1]['frags'][0]['r1']}
+            tid, _ = run_cli(env, emit, mols, no_source=False, with_ref=True, tid0=tid, tag='hm', via_label='cli_halfmapped')
     finally:
         env.cleanup()
 
